@@ -35,7 +35,7 @@ import (
 )
 
 func init() {
-	evid.Register(&evid.Check{ID: "C13", Level: "exploration", Run: run, QuickBudget: 150 * time.Second, ThoroughBudget: 20 * time.Minute})
+	evid.Register(&evid.Check{ID: "C13", Level: "exploration", Run: run, QuickBudget: 300 * time.Second, ThoroughBudget: 20 * time.Minute})
 }
 
 var alphabet = []string{"a", ".", "..", "", "a.b", "..a", "..."}
